@@ -9,6 +9,9 @@ that may raise, the inner one a recursion over `config['bits']` that returns its
 loop as a fuelled recursion over its seven state variables, fuel `length · len(bits)`), `_get_niemeyer_subhashes`,
 `niemeyer_to_geobox` and `NiemeyerHasher._get_surrounding`.  `_NIEMEYER_CONFIG` is the generated table of
 `Gen/Geohash.lean`; the two-element interval lists are pairs; `|=` / `&` are `Nat.lor` / `Nat.land`.
+`coordinate.to_float()[:2]` is the coordinate's stored `(longitude, latitude)` — for every coordinate, with or without Z
+and M (`to_float` is pinned as "a tuple that starts with longitude, latitude"; unpacking the *whole* tuple into two names,
+which raised for a coordinate carrying Z or M, is outside the subset and would break the tie).
 
 Each translated definition is proved **equal** to the hand-written model of `Model/Geohash.lean` for every input (every
 geohash, coordinate, `length : Int`, base), the loops for every config (`loops_eq_of_wf`: the only thing the encoder loop
